@@ -110,6 +110,12 @@ class Gen:
         strict = DIALECTS[dialect]
         ndirs = rng.randrange(1, 4)
         layers = [[f"{chr(97 + l)}{i}" for i in range(rng.randrange(1, 3))] for l in range(depth)]
+        if layers and rng.random() < 0.3:
+            # a file whose name ends with another file's name (za0 / a0): names must be compared whole
+            l = rng.randrange(len(layers))
+            layers[l].append("z" + rng.choice(layers[l]))
+            if rng.random() < 0.5:
+                rng.shuffle(layers[l])
         datas = [f"x{i}" for i in range(rng.randrange(0, 3))]
         files = {}
         for l, layer in enumerate(layers):
@@ -139,6 +145,9 @@ class Gen:
         rng.shuffle(order)
         if rng.random() < 0.15 and ndirs > 1:
             order = order[:-1]
+        if rng.random() < 0.2 and len(order) > 1:
+            # a search path that names a directory twice (-i a -i b -i a): the FIRST mention decides
+            order = order + [order[rng.randrange(len(order) - 1)]]
         return dialect, order, files
 
 
@@ -159,6 +168,12 @@ def fixed_cases():
             (dia, [1, 0], {(0, "main"): F(i("a")), (0, "a"): F(o), (1, "a"): F(o, o)}),
             (dia, [1, 0], {(0, "main"): F(i("a")), (0, "a"): F(i("b")), (1, "a"): F(i("c")), (0, "b"): F(o), (0, "c"): F(o), (1, "c"): F(o)}),
             (dia, [1], {(0, "main"): F(i("a")), (0, "a"): F(o)}),
+            (dia, [0, 1, 0], {(0, "main"): F(i("a")), (0, "a"): F(o), (1, "a"): F(o, o)}),
+            (dia, [1, 0, 1], {(0, "main"): F(i("a")), (0, "a"): F(o), (1, "a"): F(o, o)}),
+            (dia, [0, 1, 1, 0], {(0, "main"): F(i("a"), i("b")), (0, "a"): F(o), (1, "a"): F(o, o), (1, "b"): F(o)}),
+            (dia, [0], {(0, "main"): F(i("za"), i("a")), (0, "a"): F(o), (0, "za"): F(o, o)}),
+            (dia, [0], {(0, "main"): F(i("a"), i("za")), (0, "a"): F(o), (0, "za"): F(o, o)}),
+            (dia, [0, 1], {(0, "main"): F(i("za"), i("a")), (1, "a"): F(o), (0, "za"): F(o, o)}),
             (dia, [], {(0, "main"): F(i("a")), (0, "a"): F(o)}),
             (dia, [0], {(0, "main"): F(i("zz"))}),
             (dia, [0], {(0, "main"): F(("m", [i("a"), o]), o), (0, "a"): F(o)}),
